@@ -267,6 +267,20 @@ def run(M, c):
     bound = int(span // (n * NOM) + 1) * 2 + 8
     if bound > 12000:
         return
+    if c["u"] % 3 == 0:
+        # an iteration of the same object abandoned after its first value(s), and a second one left suspended: what the
+        # next complete iteration yields must not depend on them
+        M.quiet += 1
+        try:
+            it0 = iv.range(unit, n)
+            next(it0, None)
+            del it0
+            it1 = iter(iv.range(unit, n))
+            next(it1, None), next(it1, None)
+            if unit == "days":
+                next(iter(iv), None)
+        finally:
+            M.quiet -= 1
     got = list(itertools.islice(iv.range(unit, n), bound + 2))      # checking generator judges every element
     foldish = _fold_pair(iv.start, iv.end) or any(_fold_pair(x, iv.end) or _fold_pair(iv.start, x) for x in got[-70:] + got[:3])
     if not foldish:
